@@ -16,26 +16,47 @@ import subprocess
 import time
 import z3
 
-from .speclib import SumI, SumR
+from .speclib import SumI, SumR, MaxR
 from .ops import POW10, SQRT, LOGB, EXP
 
 _feas_cache = {}
+_light_cache = {}
 _feas_ms = int(os.environ.get('PYVC_FEAS_MS', '400'))
 stats = {'feas_calls': 0, 'feas_time': 0.0}
 
 
 def feasibility_oracle(conj):
-    """True unless the conjunction is *proved* unsatisfiable (unknown counts as feasible)."""
+    """True unless the conjunction is *proved* unsatisfiable (unknown counts as feasible).
+    The check runs on a weakening of the conjunction (quantified conjuncts dropped, every closed sum / max term replaced
+    by a fresh constant): cheap, and sound for proving infeasibility."""
     key = tuple(sorted(c.get_id() for c in conj))
     hit = _feas_cache.get(key)
     if hit is not None:
         return hit[0]
     t = time.time()
+    light = []
+    for c in conj:
+        if z3.is_quantifier(c):
+            continue
+        lc = _light_cache.get(c.get_id())
+        if lc is None:
+            try:
+                sums = collect_sums([c])
+                if sums:
+                    pairs = [(x, z3.Const('fs!%d' % x.get_id(), x.sort())) for x in sums]
+                    l2 = z3.substitute(c, *pairs)       # top-down: outermost sum terms are replaced as a whole
+                else:
+                    l2 = c
+            except z3.Z3Exception:
+                l2 = c
+            lc = (l2, c)
+            _light_cache[c.get_id()] = lc
+        light.append(lc[0])
     s = z3.Solver()
     s.set('timeout', _feas_ms)
-    for c in conj:
+    for c in light:
         s.add(c)
-    for c in uf_axioms(conj):
+    for c in uf_axioms(light):
         s.add(c)
     r = s.check()
     stats['feas_calls'] += 1
@@ -81,7 +102,7 @@ def collect_sums(exprs):
             return
         if z3.is_app(x):
             d = x.decl()
-            if (d.eq(SumI) or d.eq(SumR)) and _closed(x):
+            if (d.eq(SumI) or d.eq(SumR) or d.eq(MaxR)) and _closed(x):
                 out[i] = x
             for c in x.children():
                 go(c)
@@ -90,15 +111,20 @@ def collect_sums(exprs):
     return list(out.values())
 
 
-def unfold_axiom(t):
+def unfold_axiom(t, lower=True):
     S = t.decl()
     A, lo, hi = t.children()
     last = z3.simplify(z3.Select(A, hi - 1))
     prev = S(A, lo, z3.simplify(hi - 1))
+    if S.eq(MaxR):
+        # t >= -1 is lemma `rmax_lower` (proved by induction in contracts/lemmas.py), instantiated here
+        if not lower:
+            return z3.simplify(z3.And(z3.Implies(hi <= lo, t == -1), z3.Implies(hi > lo, t == z3.If(prev < last, last, prev))))
+        return z3.simplify(z3.And(z3.Implies(hi <= lo, t == -1), z3.Implies(hi > lo, t == z3.If(prev < last, last, prev)), t >= -1))
     return z3.simplify(z3.And(z3.Implies(hi <= lo, t == 0), z3.Implies(hi > lo, t == prev + last)))
 
 
-def unfold_all(formulas, fuel=1):
+def unfold_all(formulas, fuel=1, lower=True):
     axioms = []
     done = set()
     frontier = list(formulas)
@@ -108,7 +134,7 @@ def unfold_all(formulas, fuel=1):
             if t.get_id() in done:
                 continue
             done.add(t.get_id())
-            ax = unfold_axiom(t)
+            ax = unfold_axiom(t, lower)
             axioms.append(ax)
             new.append(ax)
         if not new:
@@ -167,6 +193,53 @@ def uf_axioms(formulas):
     return out
 
 
+def def_axioms(formulas, rounds=2):
+    """defining equations of the named spec functions (speclib.define) at the closed applications that occur"""
+    from . import speclib
+    from .values import Sym
+    from . import ops as _ops
+    if not speclib.DEFS:
+        return []
+    names = {d[0].name(): d for d in speclib.DEFS.values()}
+    out = []
+    done = set()
+    frontier = list(formulas)
+    for _ in range(rounds):
+        apps = {}
+        seen = set()
+
+        def go(x):
+            if x.get_id() in seen:
+                return
+            seen.add(x.get_id())
+            if z3.is_quantifier(x):
+                go(x.body())
+                return
+            if z3.is_app(x):
+                if x.num_args() > 0 and x.decl().name() in names and x.decl().eq(names[x.decl().name()][0]) and _closed(x):
+                    apps[x.get_id()] = x
+                for c in x.children():
+                    go(c)
+        for f in frontier:
+            go(f)
+        new = []
+        for i, app in apps.items():
+            if i in done:
+                continue
+            done.add(i)
+            decl, body, argkinds, retkind = names[app.decl().name()]
+            args = [_ops.mk(a, k) for a, k in zip(app.children(), argkinds)]
+            val = body(*args)
+            vz = _ops.z3int(val) if retkind == 'int' else (_ops.z3real(val) if retkind == 'real' else _ops.z3bool(val))
+            ax = app == vz
+            out.append(ax)
+            new.append(ax)
+        if not new:
+            break
+        frontier = new
+    return out
+
+
 # ------------------------------------------------------------------ normalisation
 def collect_lambdas(fs):
     out = {}
@@ -192,21 +265,55 @@ def collect_lambdas(fs):
 _lam_eq_cache = {}
 
 
+_lam_size = {}
+
+
+def _small(l):
+    i = l.get_id()
+    v = _lam_size.get(i)
+    if v is None:
+        v = (len(l.sexpr()) < 1200, l)
+        _lam_size[i] = v
+    return v[0]
+
+
 def lambdas_equal(a, b):
+    """extensional equality of two lambdas, decided by a solver query on their bodies (small bodies only)"""
+    if a.get_id() == b.get_id():
+        return True
     k = (a.get_id(), b.get_id())
     if k in _lam_eq_cache:
         return _lam_eq_cache[k][0]
+    if not (_small(a) and _small(b)):
+        _lam_eq_cache[k] = (False, a, b)
+        return False
     j = z3.Int('j!q')
     s = z3.Solver()
-    s.set('timeout', 2000)
+    s.set('timeout', 500)
     s.add(z3.simplify(z3.Select(a, j)) != z3.simplify(z3.Select(b, j)))
     r = s.check() == z3.unsat
     _lam_eq_cache[k] = (r, a, b)
     return r
 
 
+def _solve_eqs(fs):
+    """equisatisfiable rewriting: eliminate variables fixed by equalities (k == 7, x == t) so that terms which are equal
+    under the path condition become syntactically equal before sums are replaced by constants"""
+    try:
+        g = z3.Goal()
+        for f in fs:
+            g.add(f)
+        r = z3.Then(z3.Tactic('propagate-values'), z3.Tactic('solve-eqs'), z3.Tactic('simplify'))(g)
+        if len(r) == 1:
+            return [f for f in r[0]]
+    except z3.Z3Exception:
+        pass
+    return fs
+
+
 def normalise(fs):
     """merge provably equal lambdas, replace them by array constants, purify sum terms"""
+    fs = _solve_eqs(fs)
     lams = collect_lambdas(fs)
     classes = []
     for l in lams:
@@ -224,17 +331,21 @@ def normalise(fs):
     if subs:
         fs = [z3.simplify(z3.substitute(f, *subs)) for f in fs]
     sums = collect_sums(fs)
-    sums.sort(key=lambda t: -len(t.sexpr()))
-    for k, t in enumerate(sums):
-        c = z3.Const('sum!%d' % k, t.sort())
-        fs = [z3.substitute(f, (t, c)) for f in fs]
+    if sums:
+        pairs = [(t, z3.Const('sum!%d' % k, t.sort())) for k, t in enumerate(sums)]
+        fs = [z3.substitute(f, *pairs) for f in fs]     # top-down: outermost terms first
+        # inner sums that also occur on their own were replaced too; nested occurrences vanished with their parents
     return fs
 
 
 def query_formulas(ob, fuel=1):
     neg = z3.Not(ob.goal)
     base = [z3.simplify(f) for f in list(ob.pc) + [neg]]
-    ax = unfold_all(base, fuel)
+    lower = 'no-rmax-lower' not in (ob.hints or [])
+    ax = unfold_all(base, fuel, lower)
+    dx = def_axioms(base + ax)
+    if dx:
+        ax = ax + dx + unfold_all(dx, 1, lower)
     return base + ax + uf_axioms(base + ax)
 
 
@@ -282,26 +393,36 @@ def discharge(ob, timeout_ms=20000, use_cli=True):
         if r2 == z3.unsat:
             return dict(verdict='proved', backend=zv + '+normalised', time=time.time() - t0)
         return dict(verdict='candidate' if r == z3.sat else 'unknown', backend=zv, time=time.time() - t0)
-    r, s = _check(fs1, min(3000, timeout_ms))
+    # 1. normalised query first: small, lambda-free, pure arithmetic (a weakening: unsat is a proof)
+    fsn1 = None
+    try:
+        fsn1 = normalise(fs1)
+        r, s2 = _check(fsn1, max(2000, timeout_ms // 2))
+        if r == z3.unsat:
+            return dict(verdict='proved', backend=zv + '+normalised', time=time.time() - t0)
+    except z3.Z3Exception:
+        pass
+    # 2. direct query (keeps lambdas / congruence of sum terms)
+    r, s = _check(fs1, min(5000, timeout_ms))
     if r == z3.unsat:
         return dict(verdict='proved', backend=zv, time=time.time() - t0)
     if r == z3.sat:
         cand = model_to_dict(s.model(), ob)
-    for fuel in (1, 2):
-        fs = fs1 if fuel == 1 else query_formulas(ob, 2)
-        try:
-            fsn = normalise(fs)
-        except z3.Z3Exception:
-            continue
-        r, s2 = _check(fsn, timeout_ms if fuel == 1 else timeout_ms)
+    # 3. more unfolding
+    fs2 = query_formulas(ob, 2)
+    try:
+        fsn2 = normalise(fs2)
+        r, s2 = _check(fsn2, timeout_ms)
         if r == z3.unsat:
             return dict(verdict='proved', backend=zv + '+normalised', time=time.time() - t0)
-        if r == z3.unknown and use_cli and fuel == 2:
+        if r == z3.unknown and use_cli:
             nm = _cli(s2.to_smt2(), timeout_ms)
             if nm:
                 return dict(verdict='proved', backend=nm + '+normalised', time=time.time() - t0)
+    except z3.Z3Exception:
+        pass
     if cand is None:
-        r, s = _check(query_formulas(ob, 2), timeout_ms)
+        r, s = _check(fs2, timeout_ms)
         if r == z3.unsat:
             return dict(verdict='proved', backend=zv, time=time.time() - t0)
         if r == z3.sat:
@@ -359,14 +480,22 @@ def _work(i):
         return i, dict(verdict='error', backend='z3', time=0.0, error='%s: %s' % (type(e).__name__, e))
 
 
+def _worker(indices, conn):
+    for i in indices:
+        conn.send(('start', i))
+        conn.send(('done', i, _work(i)[1]))
+    conn.send(('end',))
+    conn.close()
+
+
 def discharge_all(obs, timeout_ms=20000, procs=None):
-    """discharge a list of obligations in a fork pool; returns list of result dicts"""
+    """discharge obligations in forked worker processes; a worker stuck inside the solver (z3 does not always
+    honour its timeout) is killed after a hard limit and the obligation is reported `unknown`"""
     import multiprocessing as mp
     global _OBS, _TMO
     _OBS = obs
     _TMO = timeout_ms
     res = [None] * len(obs)
-    # trivial ones in-process
     todo = []
     for i, o in enumerate(obs):
         if z3.is_true(z3.simplify(o.goal)):
@@ -374,12 +503,63 @@ def discharge_all(obs, timeout_ms=20000, procs=None):
         else:
             todo.append(i)
     procs = procs or int(os.environ.get('PYVC_PROCS', '0')) or min(16, os.cpu_count() or 4)
-    if len(todo) <= 1 or procs <= 1:
+    if not todo:
+        return res
+    if procs <= 1:
         for i in todo:
             res[i] = _work(i)[1]
         return res
     ctx = mp.get_context('fork')
-    with ctx.Pool(min(procs, len(todo))) as pool:
-        for i, r in pool.imap_unordered(_work, todo, chunksize=1):
-            res[i] = r
+    hard = 4.0 * timeout_ms / 1000.0 + 20.0
+    queue = list(todo)
+    workers = []        # dict(proc, conn, pending list, current, t0)
+
+    def spawn(batch):
+        parent, child = ctx.Pipe(duplex=False)
+        p = ctx.Process(target=_worker, args=(batch, child))
+        p.daemon = True
+        p.start()
+        child.close()
+        workers.append(dict(p=p, conn=parent, pending=list(batch), cur=None, t0=time.time()))
+    nw = min(procs, len(queue))
+    per = max(1, min(8, len(queue) // (nw * 3) or 1))
+    while queue or workers:
+        while queue and len(workers) < nw:
+            batch, queue = queue[:per], queue[per:]
+            spawn(batch)
+        time.sleep(0.01)
+        for w in list(workers):
+            try:
+                while w['conn'].poll():
+                    msg = w['conn'].recv()
+                    if msg[0] == 'start':
+                        w['cur'], w['t0'] = msg[1], time.time()
+                    elif msg[0] == 'done':
+                        res[msg[1]] = msg[2]
+                        if msg[1] in w['pending']:
+                            w['pending'].remove(msg[1])
+                        w['cur'] = None
+                    elif msg[0] == 'end':
+                        w['p'].join(1)
+                        workers.remove(w)
+                        break
+            except (EOFError, OSError):
+                # worker died: report its current obligation, requeue the rest
+                if w in workers:
+                    workers.remove(w)
+                cur = w['cur']
+                if cur is not None and res[cur] is None:
+                    res[cur] = dict(verdict='unknown', backend='z3', time=time.time() - w['t0'], error='solver process died')
+                queue = [i for i in w['pending'] if res[i] is None and i != cur] + queue
+                continue
+            if w in workers and w['cur'] is not None and time.time() - w['t0'] > hard:
+                w['p'].kill()
+                w['p'].join(1)
+                workers.remove(w)
+                cur = w['cur']
+                res[cur] = dict(verdict='unknown', backend='z3', time=time.time() - w['t0'], error='solver unresponsive: killed after %.0fs' % hard)
+                queue = [i for i in w['pending'] if res[i] is None and i != cur] + queue
+    for i in todo:
+        if res[i] is None:
+            res[i] = dict(verdict='unknown', backend='z3', time=0.0, error='no result')
     return res
